@@ -188,22 +188,23 @@ PROPS["C20"] = {
 PROPS["C13"] = {
     "verus_units": ["parser_tokens", "preparse"],
     "replay": "parser",
-    "floor": {"obligations": 25},
+    "floor": {"obligations": 35},
     "trusted_base": [
         "ASSUMED contract of the chumsky lexer built in tokenize (vx_chumsky_lex): it always yields a token vector and the spans it hands out tile the input (third-party combinators: outside any verifier's reach); model of chumsky MapExtra::span / SimpleSpan",
         "ASSUMED contract of split_projection_float_tokens (FnMut closure capturing &mut Vec, str::split_once, chars(): outside Verus): re-splitting a float after a dot keeps the tiling",
         "derive(PartialEq) on the field-less enum TokenKind is structural equality",
         "N10 helpers vx_map_append / vx_map_extend: HashMap::entry(k).or_default().append(&mut v) / .extend(v) append to the list under k (created empty if absent), leave other entries untouched",
-        "model of green.rs GreenTreeBuilder::add_token (appends a leaf); byte length of a &str fits in usize",
+        "model of green.rs GreenTreeBuilder (add_token appends a leaf; start_node / finish_node keep the leaves; into_arena hands them over); byte length of a &str fits in usize",
+        "ASSUMED contract of Parser::parse_statement (and through it the ~60 mutually recursive parse_* methods, which take FnOnce(&mut Self) closures through emit_node: outside Verus): keeps the leaf invariant (consumes tokens only through bump/expect) and never moves `current` backwards",
         "vstd specifications of Vec, HashMap<usize,_>, Option, str::len",
     ],
     "assumptions": ["the replace_range rule on tokenize: the statements that build and run the chumsky lexer are replaced by one call of the assumed lexer contract"],
     "not_covered": [
         "the chumsky lexer itself and split_projection_float_tokens (assumed contracts above); character-boundary clause of the tiling (follows from the lexer assumption only)",
-        "the 60 mutually recursive parse_* methods (closures taking &mut Self through emit_node are outside Verus): that every syntax token is consumed through bump exactly once is proved for bump itself only; green.rs / red.rs tree structure",
+        "the 60 mutually recursive parse_* methods (closures taking &mut Self through emit_node are outside Verus): their monotonicity / leaf invariant is the assumed contract of parse_statement; green.rs / red.rs tree structure; expects / expect_all (three-arm guarded match, fold with a closure capturing &mut self)",
         "file-leading trivia up to the last line break before the first syntax token are attached to no token: known finding F2 (the proved postcondition excludes exactly this block)",
     ],
-    "explanation": "C13 first-party part: the two closures of tokenize turn a lexer span into a token covering exactly that span; given the assumed lexer/splitter contracts tokenize returns a lossless stream (tiling + zero-length Eof at the end); preparse: token_indices are exactly the syntax tokens in order, and there is a one-to-one correspondence (owner) between attached trivia indices and list positions of the two trivia maps -- nothing but trivia is attached, nothing twice, and every trivia token is attached when a syntax token exists, except the F2 block; Parser::bump appends exactly token_indices[current] to the tree leaves and advances by one.",
+    "explanation": "C13 first-party part: the two closures of tokenize turn a lexer span into a token covering exactly that span; given the assumed lexer/splitter contracts tokenize returns a lossless stream (tiling + zero-length Eof at the end); preparse: token_indices are exactly the syntax tokens in order, and there is a one-to-one correspondence (owner) between attached trivia indices and list positions of the two trivia maps -- nothing but trivia is attached, nothing twice, and every trivia token is attached when a syntax token exists, except the F2 block; Parser::bump appends exactly token_indices[current] to the tree leaves and advances by one; peek / check / is_at_end / expect are specified against the syntax-token sequence; Parser::parse (main loop with the no-progress recovery bump) terminates and, given the assumed contract of parse_statement, returns a tree whose leaves are exactly the syntax tokens in source order.",
     "samples": [
         {"obligation": "preparse::ensures", "clause": "exists owner: owner_ok(tokens, leading, trailing, owner, n_syntax) && coverage minus dropped_upto"},
         {"obligation": "error_token_of_span::ensures", "clause": "r.start == span.start && r.start + r.length == span.end"},
